@@ -487,8 +487,8 @@ def replay(ctx, payload):
 
 LEVEL_TEXT = ('Machine-checked proof (Lean 4) over a hand-written model of InspectWrapper.formats / format / '
               '_process_chunk and detect_file_format on top of the ten model inspectors; see the theorem list in '
-              'lean/OsloProofs/Props/C03.lean (exclusivity, raw only when nothing else matches, allowed_formats '
-              'respected, totality, stability of an announced decision). The model is tied to the code by a differential '
+              'lean/OsloProofs/Props/C03*.lean (exclusivity, raw only when nothing else matches, allowed_formats '
+              'respected, totality, stability of an announced decision for wrappers over the eight fixed-region formats). The model is tied to the code by a differential '
               'correspondence on signature overlays, images and text/binary files x allowed_formats x read sizes on '
               'every run, sampling the decision after every read.')
 LEVEL_NOTE = ('Trusted: Lean kernel; the hand model and the translator; the correspondence harness. The read-size '
